@@ -150,18 +150,22 @@ func Run(cs Case, c *vrt.Ctx) {
 	}
 	// the same script read from its text (the parser orders operators by precedence and
 	// regroups what it read right-nested) evaluates like the one that was built
-	var parsed *jp.Script
-	var perr error
-	if pv, stack := vrt.Catch(func() { parsed, perr = jp.NewScript(s.String()) }); pv != nil {
-		c.Fail("panic", "NewScript", fmt.Sprintf("%v at %s; %s", pv, stack, desc), "op:"+cs.Eq.Op)
-	} else if perr != nil || parsed == nil {
-		c.Class("text-does-not-parse(C14)")
-	} else {
-		var pgot bool
-		if pv, stack := vrt.Catch(func() { pgot = parsed.Match(in) }); pv != nil {
-			c.Fail("panic", "Script.Match(parsed)", fmt.Sprintf("%v at %s; %s", pv, stack, desc), "op:"+cs.Eq.Op)
-		} else if pgot != got {
-			c.Fail("parsed-differs-from-built", "NewScript", fmt.Sprintf("%s: built %s gives %v, read from that text it prints as %s and gives %v", desc, s.String(), got, parsed.String(), pgot), "op:"+cs.Eq.Op)
+	// (the script and the equation it was made from have printers of their own)
+	for ti, text := range []string{s.String(), cs.Eq.Build().String()} {
+		var parsed *jp.Script
+		var perr error
+		where := []string{"NewScript(Script.String)", "NewScript(Equation.String)"}[ti]
+		if pv, stack := vrt.Catch(func() { parsed, perr = jp.NewScript(text) }); pv != nil {
+			c.Fail("panic", where, fmt.Sprintf("%v at %s; %s", pv, stack, desc), "op:"+cs.Eq.Op)
+		} else if perr != nil || parsed == nil {
+			c.Class("text-does-not-parse(C14)")
+		} else {
+			var pgot bool
+			if pv, stack := vrt.Catch(func() { pgot = parsed.Match(in) }); pv != nil {
+				c.Fail("panic", "Script.Match(parsed)", fmt.Sprintf("%v at %s; %s", pv, stack, desc), "op:"+cs.Eq.Op)
+			} else if pgot != got {
+				c.Fail("parsed-differs-from-built", where, fmt.Sprintf("%s: built %s gives %v, read from the text %s it prints as %s and gives %v", desc, s.String(), got, text, parsed.String(), pgot), "op:"+cs.Eq.Op)
+			}
 		}
 	}
 	// and read as part of a path, which has a front-end of its own for filters
